@@ -13,8 +13,46 @@ use embedded_graphics::{
     Pixel,
 };
 
+/// very long lines (the exact distance arithmetic of EGLine does not reach them): only count and end points
+fn run_long(rec: &mut Rec, d: &Value) {
+    let (s, e) = (pt_from(&d["s"]), pt_from(&d["e"]));
+    rec.begin(d.clone());
+    let r = catch(|| {
+        let m = (e.x as i64 - s.x as i64).abs().max((e.y as i64 - s.y as i64).abs()) as usize;
+        let mut n = 0usize;
+        let (mut first, mut last) = (None, None);
+        for p in Line::new(s, e).points() {
+            if n > m + 66 {
+                break;
+            }
+            if first.is_none() {
+                first = Some(p);
+            }
+            last = Some(p);
+            n += 1;
+        }
+        (n, first, last)
+    });
+    match r {
+        Ok((n, first, last)) => {
+            rec.nontrivial();
+            let pj = |p: Option<Point>| p.map(pt_json).unwrap_or(json!([]));
+            rec.ev("longline", json!({"s": pt_json(s), "e": pt_json(e), "np": n, "first": pj(first), "last": pj(last)}));
+        }
+        Err(p) => {
+            rec.note("panicked_cases");
+            rec.ev("panic", json!({"msg": p.msg, "loc": p.loc}));
+        }
+    }
+}
+
 fn run_case(rec: &mut Rec, d: &Value) {
+    if d["k"].as_str() == Some("longline") {
+        return run_long(rec, d);
+    }
     assert_eq!(d["k"].as_str(), Some("line"), "unknown case kind {}", d["k"]);
+    // optional stroke alignment (0 inside, 2 outside; it is documented as ignored for lines)
+    let al = d["al"].as_i64().unwrap_or(1);
     let (s, e) = (pt_from(&d["s"]), pt_from(&d["e"]));
     let ws: Vec<u32> = d["ws"].as_array().unwrap().iter().map(|w| i(w) as u32).collect();
     rec.begin(d.clone());
@@ -24,7 +62,16 @@ fn run_case(rec: &mut Rec, d: &Value) {
         let (pts, pdone) = pull(line.points(), m + 66);
         let mut strokes = vec![];
         for &w in &ws {
-            let styled = line.into_styled(PrimitiveStyle::with_stroke(BinaryColor::On, w));
+            let style = if al == 1 {
+                PrimitiveStyle::with_stroke(BinaryColor::On, w)
+            } else {
+                embedded_graphics::primitives::PrimitiveStyleBuilder::new()
+                    .stroke_color(BinaryColor::On)
+                    .stroke_width(w)
+                    .stroke_alignment(if al == 0 { embedded_graphics::primitives::StrokeAlignment::Inside } else { embedded_graphics::primitives::StrokeAlignment::Outside })
+                    .build()
+            };
+            let styled = line.into_styled(style);
             // more items than there are lattice points in the band the property allows
             let budget = (2 * m + 8) * (w as usize + 8) + 64;
             let (px, sdone) = pull(styled.pixels(), budget);
@@ -94,11 +141,21 @@ fn main() {
     // beyond w * |delta| ~ 23170 (D15b, repaired); half of the long lines now lie BEYOND that product so that a
     // re-narrowing of the threshold arithmetic shows as a stroke that is too thin.
     let (n_med, n_long) = if th { (15000, 8000) } else { (300, 90) };
-    for _ in 0..n_med {
+    for k in 0..n_med {
         let s = (rng.i32(-60, 60), rng.i32(-60, 60));
         let e = (s.0 + rng.i32(-48, 48), s.1 + rng.i32(-48, 48));
         let ws = [1, rng.u32r(2, 9), rng.u32r(10, 24)];
-        run_case(&mut rec, &line_desc(s, e, &ws));
+        let mut d = line_desc(s, e, &ws);
+        // a third of the medium lines with a non-default stroke alignment (must make no difference)
+        if k % 3 != 0 {
+            d["al"] = json!(if k % 3 == 1 { 0 } else { 2 });
+        }
+        run_case(&mut rec, &d);
+    }
+    // very long lines: count and end points only
+    for (s, e) in [((0, 0), (50_000, 20_000)), ((-3, 7), (46_341, 1)), ((10, -10), (-70_000, 65_000)), ((0, 0), (0, 1_000_000)),
+                   ((5, 5), (2_000_000, -1_999_999)), ((-1_000_000, -1_000_000), (1_000_000, 999_983))] {
+        run_case(&mut rec, &json!({"k":"longline","s":[s.0, s.1],"e":[e.0, e.1]}));
     }
     let mut made = 0;
     while made < n_long {
